@@ -26,6 +26,8 @@ command('hello', cmd=['sh', source_file('tools/run.sh')])
 test(e1)
 install(e1, hdr, inc, man)
 extra_dist(files=['README', 'docs/guide.md'], dirs=['licenses'])
+vend = find_files('vendor/*.bin', dist=False)
+uncached = find_files('nocache/*.c', extra='*.hpp', cache=False)
 """
 FILES = {
     # file -> must it be in the archive?  (None: either way is acceptable)
@@ -39,6 +41,8 @@ FILES = {
     'licenses/sub/BSD': None,        # extra_dist(dirs=) lists the directory one level deep; the deeper file has no
                                      # influence on the build and the property text does not settle it
     'unrelated.txt': False,
+    'vendor/v.bin': False,            # found twice (the second time from the cache), both times dist=False
+    'nocache/n.c': True, 'nocache/n.hpp': True,      # an uncached search with extra=
 }
 C_MAIN = ('main.c', 'private.c', 'sub/sp.c')
 
@@ -71,7 +75,7 @@ class DistArchive(Bounded):
                     f.write(text)
             w('build.bfg', BUILD_BFG)
             w('options.bfg', "argument('name', default='x')\nsubmodule('sub')\n")
-            w('sub/build.bfg', "executable('subprog', files=['sp.c'])\n")
+            w('sub/build.bfg', "executable('subprog', files=['sp.c'])\nfind_files('../vendor/*.bin', dist=False)\n")
             w('sub/options.bfg', "argument('subname', default='y')\n")
             for f in FILES:
                 if f.endswith('.bfg'):
